@@ -46,7 +46,7 @@
    (D.. -> TN -> schedule -> TS -> TE.. -> PK): used only for `*_refuted`. *)
 From Coq Require Import List Arith NArith Bool Lia.
 Import ListNotations.
-Open Scope N_scope.
+Local Open Scope N_scope.
 
 Record entry := { eid : nat; edl : N; eeff : N; elk : bool }.
 Record qitem := { qL : N; qid : nat; qrdy : bool; qr : nat }.
